@@ -6,8 +6,11 @@
 //!   (2 1 term probes writes)   dynamic interpreter
 //!   (2 2 term probes writes)   static (non-erased) composition, for the term skeletons of c02/fixed.rs
 //!   (2 3 term shape' probes writes)   reshape the leaf through source_ref_mut(), then observe (c02/mutate.rs)
+//!   (2 4 shape layout names req)      a user-implemented source with an arbitrary layout claim (c02/interop.rs)
+//!   (2 5 term n0 n1 probes)           2-D view -> MatrixRefTensor -> TensorRefMatrix (c02/interop.rs)
 mod build;
 mod fixed;
+mod interop;
 mod mutate;
 
 use crate::guarded;
@@ -19,6 +22,12 @@ use easy_ml::tensors::views::{DataLayout, TensorMut, TensorRef, TensorView};
 pub fn run(args: &[Sx]) -> Sx {
     let op = args.first().and_then(|x| x.i64());
     // op 1: dynamic interpreter (type-erased sources); op 2: the same term built with concrete types
+    if op == Some(4) {
+        return interop::foreign(args);
+    }
+    if op == Some(5) {
+        return interop::trip(args);
+    }
     let execute = match op {
         Some(1) => execute as fn(&Sx, &[Vec<usize>], &[(Vec<usize>, i64)], usize) -> Sx,
         Some(2) => fixed::execute,
